@@ -34,7 +34,7 @@ from vf.props.c11 import _rng, alphabet, grid_points
 ID = "C12"
 LEVEL = "exploration"
 JAX = True
-RULE = ("case = (likelihood kind [Gaussian unit/diag callables/diag array/std only/dense/complex, StudentT scalar/"
+RULE = ("case = (likelihood kind [Gaussian unit/diag callables/diag array/std only/dense/complex/complex Hermitian dense, StudentT scalar/"
         "field dof/dense+field dof, Poissonian, VariableCovarianceGaussian real/complex, VariableCovarianceStudentT "
         "scalar/field dof, NDVariableCovarianceGaussian covariance/precision, Categorical axis -1/0], data shape "
         "[array, batched 2 rows, pytree Vector], composition [plain, amend exp, amend matrix(+link), amend pytree "
@@ -47,7 +47,7 @@ ASSUMPTIONS = [
     "float64, x64 enabled; parameters on a 4-value alphabet per coordinate (VERIF_SEED jitters the values)",
     "Poisson data enumerated on 0..K with K = cut(4.0) (tail mass < 1e-16), rates < 4",
     "continuous data: tensor Gauss-Hermite/-Jacobi rules exact for the polynomial integrands",
-    "noise_std_inv callables are symmetric square roots of noise_cov_inv",
+    "noise_std_inv callables are symmetric (Hermitian) square roots of noise_cov_inv",
     "NDVariableCovarianceGaussian: Fisher bilinear form compared on symmetric matrix perturbations",
     "complex data: variance 1/cov_inv per real component; Fisher on (Re, Im) coordinates",
     "data leaves are vmapped through the likelihood pytree (the constructor runs once per case)",
@@ -59,7 +59,7 @@ SHAPES = ("vec", "batch", "tree")
 # kind -> (family tag, allowed shapes)
 KINDS = {
     "gauss_unit": SHAPES, "gauss_diag": SHAPES, "gauss_diagarr": SHAPES, "gauss_stdonly": SHAPES,
-    "gauss_dense": ("vec",), "gauss_cplx": SHAPES,
+    "gauss_dense": ("vec",), "gauss_cplx": SHAPES, "gauss_cplxdense": ("vec",),
     "studentt": SHAPES, "studentt_fielddof": SHAPES, "studentt_dense_fielddof": ("vec",),
     "poissonian": SHAPES,
     "vcg_real": SHAPES, "vcg_cplx": SHAPES,
@@ -73,7 +73,7 @@ NCAT = 3
 
 
 def is_cplx(kind):
-    return kind in ("gauss_cplx", "vcg_cplx")
+    return kind in ("gauss_cplx", "gauss_cplxdense", "vcg_cplx")
 
 
 def blocks_of(kind, shape, n=2):
@@ -255,7 +255,11 @@ class TermSpec:
         P = Rm.T @ np.diag(w) @ Rm
         ev, U = np.linalg.eigh(P)
         S = U @ np.diag(np.sqrt(ev)) @ U.T
-        self.aux = dict(w=w, dof=dof, dofs=dofs, P=P, S=S)
+        Rc = Rm + 0.3j * r.uniform(-1, 1, (n, n))
+        Pc = Rc.conj().T @ np.diag(w) @ Rc
+        evc, Uc = np.linalg.eigh(Pc)
+        Sc = Uc @ np.diag(np.sqrt(evc)) @ Uc.conj().T
+        self.aux = dict(w=w, dof=dof, dofs=dofs, P=P, S=S, Pc=Pc, Sc=Sc)
         k = kind
         if k == "gauss_unit":
             fam = F.Gauss(np.eye(n))
@@ -265,6 +269,8 @@ class TermSpec:
             fam = F.Gauss(P)
         elif k == "gauss_cplx":
             fam = F.Gauss(np.diag(np.tile(w, 2)))
+        elif k == "gauss_cplxdense":
+            fam = F.Gauss(np.block([[Pc.real, -Pc.imag], [Pc.imag, Pc.real]]))
         elif k == "studentt":
             fam = G.StudentTWhitened(np.full(n, dof), np.diag(np.sqrt(w)))
         elif k == "studentt_fielddof":
@@ -382,6 +388,9 @@ class TermSpec:
         if k == "gauss_dense":
             P, S = jnp.asarray(a["P"]), jnp.asarray(a["S"])
             return jft.Gaussian(data, noise_cov_inv=lambda x: P @ x, noise_std_inv=lambda x: S @ x)
+        if k == "gauss_cplxdense":
+            P, S = jnp.asarray(a["Pc"]), jnp.asarray(a["Sc"])
+            return jft.Gaussian(data, noise_cov_inv=lambda x: P @ x, noise_std_inv=lambda x: S @ x)
         if k == "studentt":
             return jft.StudentT(data, a["dof"], noise_cov_inv=lambda x: w * x, noise_std_inv=lambda x: w ** 0.5 * x)
         if k == "studentt_fielddof":
@@ -402,7 +411,11 @@ class TermSpec:
         if k.startswith("ndvcg"):
             return jft.NDVariableCovarianceGaussian(data, covariance=k.endswith("cov"))
         if k.startswith("categorical"):
-            return jft.Categorical(data, axis=self.fam.axis if self.shape == "batch" else -1)
+            kw = {}
+            import inspect
+            if "n_categories" in inspect.signature(jft.Categorical.__init__).parameters:
+                kw["n_categories"] = NCAT      # forward compatible with the proposed repair (see report)
+            return jft.Categorical(data, axis=self.fam.axis if self.shape == "batch" else -1, **kw)
         raise ValueError(k)
 
 
@@ -684,6 +697,39 @@ def libname(kind):
     return LIBCLASS[p[0]] + ("[%s]" % ",".join(p[1:]) if len(p) > 1 else "")
 
 
+def keyname(kind, clauses):
+    """Semantic finding key: library class (+ variant where it matters) | set of violated clauses."""
+    clauses = list(dict.fromkeys(clauses))
+    if kind.startswith("categorical"):
+        name = "Categorical"
+    elif kind.startswith("ndvcg") and clauses == ["pullback:E[J^H J]!=M"]:
+        name = "NDVariableCovarianceGaussian"
+    else:
+        name = libname(kind)
+    return "%s|%s" % (name, "+".join(clauses))
+
+
+_BLAME = {}
+
+
+def plain_failures(kind, shape, seed):
+    """Clauses violated by the plain likelihood of `kind` (two grid points), cached per process."""
+    key = (kind, shape, seed)
+    if key not in _BLAME:
+        found = []
+        try:
+            st0 = build_struct([kind], shape, "plain", seed)
+            for a in (0, 1):
+                p0 = xi_from_point(st0, [(a + j) % 4 for j in range(st0.D)])
+                p1 = xi_from_point(st0, [(a + 1 + j) % 4 for j in range(st0.D)])
+                f0, _ = check_point(st0, p0, p1)
+                found += [f[0] for f in f0 if f[0] != "harness"]
+        except Exception:
+            pass
+        _BLAME[key] = list(dict.fromkeys(found))
+    return _BLAME[key]
+
+
 def check_point(st, xi, xi0):
     """All clauses at one latent point.  Returns (failures [(clause, where, message)], info)."""
     import jax
@@ -838,29 +884,20 @@ def run_case(case):
         clause, wh, msg = fails[0]
         if clause == "harness":
             return bad("harness: " + msg, finding_key="harness|" + wh, stats=stats)
-        names = "+".join(libname(k) for k in kinds)
-        # blame: is the same clause already violated by the plain likelihood of one of the kinds?
-        key = "%s|%s|%s|%s" % (names, shape, clause, wh)
-        if wrap != "plain":
-            blamed = None
+        clauses = [f[0] for f in fails]
+        key = None
+        if wrap == "plain":
+            key = keyname(kinds[0], clauses)
+        else:
+            # blame: is one of these clauses already violated by the plain likelihood of one of the kinds?
             for k in dict.fromkeys(kinds):
-                sh = shape if shape in KINDS[k] else KINDS[k][0]
-                try:
-                    st0 = build_struct([k], sh, "plain", seed)
-                    for a in (0, 1):
-                        p0 = xi_from_point(st0, [(a + j) % 4 for j in range(st0.D)])
-                        p1 = xi_from_point(st0, [(a + 1 + j) % 4 for j in range(st0.D)])
-                        f0, _ = check_point(st0, p0, p1)
-                        same = [f for f in f0 if f[0] == clause]
-                        if same:
-                            blamed = "%s|%s|%s|%s" % (libname(k), sh, clause, same[0][1])
-                            break
-                except Exception:
-                    pass
-                if blamed:
+                pc = plain_failures(k, shape if shape in KINDS[k] else KINDS[k][0], seed)
+                if set(pc) & set(clauses):
+                    key = keyname(k, pc)
                     break
-            key = blamed if blamed else key + "|only-via:" + wrap
-        return bad("%s %s/%s: clause %s failed: %s" % ("+".join(kinds), shape, wrap, clause, msg[:1500]),
+            if key is None:
+                key = "%s|%s|only-via:%s" % ("+".join(libname(k) for k in kinds), "+".join(clauses), wrap)
+        return bad("%s %s/%s: clause %s failed at block %s: %s" % ("+".join(kinds), shape, wrap, clause, wh, msg[:1500]),
                    finding_key=key, stats=stats,
                    detail=dict(all_failed=[f[:2] for f in fails], worst=info.get("worst"), xi=list(map(float, xi))))
     label = "%s|%s|%s|trafo=%s" % ("+".join(kinds), shape, wrap,
